@@ -388,3 +388,17 @@ func (m *Map) Delete(k interface{}) {
 	}
 	m.real.Delete(k)
 }
+
+// Range mirrors sync.Map.Range.
+func (m *Map) Range(f func(k, v interface{}) bool) {
+	if vsched.Active() {
+		vsched.Step(vsched.Op1("Map.Range", m.obj(), vsched.KMemRead))
+		for k, v := range m.m {
+			if !f(k, v) {
+				return
+			}
+		}
+		return
+	}
+	m.real.Range(f)
+}
